@@ -519,6 +519,9 @@ def main():
         for f in r["failures"]:
             lp = label_props(f["label"])
             if lp is not None:
+                # obligations of another property that THIS property's statement depends on as well (registry: also_labels = label prefixes)
+                if pid not in lp and any(f["label"].startswith(pre) for pre in reg.PROPERTIES[pid].get("also_labels", ())):
+                    lp = lp + [pid]
                 if pid not in lp:
                     foreign.append(dict(f, unit=r["unit"]))
                     continue
